@@ -357,6 +357,66 @@ def r20_6(ctx, counts) -> RuleResult:
     return res
 
 
+def r20_7(ctx, counts) -> RuleResult:
+    """a nilled element has the empty sequence as typed value; xsi:nil is read by value"""
+    model: Model = ctx.model
+    res = RuleResult(
+        'R20.7', 'NILLED-TYPED-VALUE-EMPTY',
+        'An element with xsi:nil="true" (or "1") is nilled and its typed value is the empty '
+        'sequence (XDM 6.2.4); xsi:nil="false" is an ordinary element. In the iter_typed_values '
+        'generators of the element node classes every branch whose test mentions xsi:nil (the '
+        'XSI_NIL attribute or the `nilled` property) (a) tests the value - a comparison with '
+        '"true" / "1", or `.nilled` - not the mere presence `X.get(XSI_NIL)`, and (b) yields '
+        'nothing. `yield ""` made data(n) = ("", 3) and `n = 3` raise XPTY0004; the presence test '
+        'removed the typed value of <nn xsi:nil="false">5</nn>.')
+    n = 0
+    for f in sorted(model.all_functions(), key=lambda q: q.key):
+        if f.name != 'iter_typed_values' or f.cls is None:
+            continue
+        parent_of = {id(ch): par for par in ast.walk(f.node) for ch in ast.iter_child_nodes(par)}
+        for st in ast.walk(f.node):
+            if not isinstance(st, ast.If):
+                continue
+            mentions = [y for y in ast.walk(st.test)
+                        if (isinstance(y, ast.Name) and y.id == 'XSI_NIL')
+                        or (isinstance(y, ast.Attribute) and y.attr == 'nilled')]
+            if not mentions:
+                continue
+            n += 1
+            problems = []
+            for y in mentions:
+                if isinstance(y, ast.Name):
+                    call = parent_of.get(id(y))
+                    while call is not None and not isinstance(call, ast.Call):
+                        call = parent_of.get(id(call))
+                    up = parent_of.get(id(call)) if call is not None else None
+                    # strip()/lower() chains on the value are fine
+                    while isinstance(up, ast.Attribute) or (
+                            isinstance(up, ast.Call) and isinstance(up.func, ast.Attribute)
+                            and up.func.value is not None and up is not call):
+                        nxt = parent_of.get(id(up))
+                        if nxt is None:
+                            break
+                        up = nxt
+                    if not isinstance(up, ast.Compare):
+                        problems.append((st.test, 'tests the presence of xsi:nil, not its value: '
+                                                  'xsi:nil="false" is treated as nilled'))
+            if any(isinstance(y, (ast.Yield, ast.YieldFrom)) for b in st.body for y in ast.walk(b)):
+                problems.append((st, 'yields a value for a nilled element: its typed value is '
+                                     'the empty sequence'))
+            res.instances.append(f'{f.key}: L{st.lineno} `{stmt_text(st.test)[:60]}`: by value '
+                                 f'and empty: {not problems}')
+            if not problems:
+                res.ok()
+            for node, why in problems:
+                res.fail(finding('R20.7', f, node, 'xsi:nil: ' + why[:28],
+                                 f'`{stmt_text(st.test)[:70]}` {why}'))
+    counts['nil_branches'] = n
+    if n < 1:
+        raise AnalysisError('iter_typed_values: no branch on xsi:nil located')
+    return res
+
+
 def run(ctx) -> dict:
     model: Model = ctx.model
     counts: dict[str, int] = {}
@@ -453,7 +513,7 @@ def run(ctx) -> dict:
         'elementpath.xpath_context'), 0)
     return {
         'results': [r1, r2, r20_3(ctx, counts), r20_4(ctx, counts), r20_5(ctx, counts),
-                    r20_6(ctx, counts),
+                    r20_6(ctx, counts), r20_7(ctx, counts),
                     _state], 'counts': counts,
         'explanation':
             'Only the table-shaped necessary condition of "the typed value is an instance of the '
